@@ -492,7 +492,7 @@ pub fn run(tier: &str) -> i32 {
     let l4 = lattice_segments(4);
     sweep_int(&st, "L4 (all segments between the points of {0..4}^2)", &l4, &|v| v);
     if thorough {
-        sweep_int(&st, "L10 (all segments between the points of {0..10}^2)", &lattice_segments(10), &|v| v);
+        sweep_int(&st, "L12 (all segments between the points of {0..12}^2)", &lattice_segments(12), &|v| v);
     } else {
         sweep_int(&st, "L6 (all segments between the points of {0..6}^2)", &lattice_segments(6), &|v| v);
     }
